@@ -150,7 +150,7 @@ def get_facts(repo=REPO, verbose=True):
         os.rename(tmp, fdir)
         # keep the newest 4 fact dirs
         ds = sorted(glob.glob(os.path.join(CACHE, 'facts', '*')), key=os.path.getmtime, reverse=True)
-        for d in ds[4:]:
+        for d in ds[10:]:
             if '.tmp' not in d:
                 shutil.rmtree(d, ignore_errors=True)
         return fdir, 'miss', th, log
